@@ -144,6 +144,7 @@ def storeReg (client : Bool) (o : Obs) : Out :=
   else if !o.lSome then rej .regNotFound [.H, .G]
   else if !o.lOk then rej .parse [.H, .G]
   else if !o.cB then rej .regDifferentBase [.H, .G]
+  else if regVerifiedMerge && !o.cA then rej .regInvalid [.H, .G]
   else if !o.cC then ⟨.ok, [.H, .G], []⟩
   else ⟨.ok, [.H, .G, .Wm], if client then [.Rd .m] else []⟩
 
@@ -246,8 +247,9 @@ deriving DecidableEq, Repr
 inductive RegBase | good | alt | bad
 deriving DecidableEq, Repr
 
-/-- register op classes: signed by the owner / by a stranger / addressed to another register -/
-inductive OpCls | v | u | f
+/-- register op classes: signed by the owner / by a stranger (unpermitted writer) / addressed to another
+register / owner as source with a forged signature / oversize entry -/
+inductive OpCls | v | u | f | s | z
 deriving DecidableEq, Repr
 
 structure OpD where
@@ -331,10 +333,14 @@ def insertSorted (x : Nat) : List Nat → List Nat
 /-- sorted duplicate-free union (model of `BTreeSet::extend`) -/
 def union (a b : List Nat) : List Nat := a.foldl (fun acc x => insertSorted x acc) (b.foldl (fun acc x => insertSorted x acc) [])
 
+/-- `check_register_op` + the entry-size guard of `SignedRegister::verify`: with "anyone can write"
+permissions neither the writer nor the signature is checked -/
 def opValid (alt : Bool) : OpCls → Bool
   | .v => true
   | .u => alt
   | .f => false
+  | .s => alt
+  | .z => false
 
 abbrev Store := List (Nat × Content)
 
